@@ -68,14 +68,15 @@ def probe_reader(make, chunks, suffix, expect_after):
     return errs, ok
 
 
-def probe_protocol(cls_name, order, cfg, chunks):
+def probe_protocol(cls_name, order, cfg, chunks, container="list"):
     from han import dlde, hdlc, meter_connection as mc
 
     _ensure_loop()
     errs = []
     readers = {"H": hdlc.HdlcFrameReader(*cfg), "P": dlde.ModeDReader()}
     q = asyncio.Queue()
-    proto = getattr(mc, cls_name)(q, [readers[o] for o in order])
+    cands = [readers[o] for o in order]
+    proto = getattr(mc, cls_name)(q, tuple(cands) if container == "tuple" else cands)
     for c in chunks:
         try:
             proto.data_received(c)
@@ -86,6 +87,44 @@ def probe_protocol(cls_name, order, cfg, chunks):
         item = q.get_nowait()
         if not isinstance(item, (bytes, bytearray)):
             _touch(item, errs, "queued message")
+    return errs
+
+
+def protocol_container_errors() -> list[str]:
+    """Candidate readers given as a tuple, and one list object handed to two protocol instances in a row (the
+    'lambda: Protocol(queue, readers)' factory pattern after a reconnect): clean traffic must get through."""
+    from han import dlde, hdlc, meter_connection as mc
+
+    _ensure_loop()
+    errs = []
+    suf_p, msgs_p = p1_suffix()
+    suf_h, fr_h = hdlc_suffix((True, True))
+    for cls_name in ("SmartMeterMessagePayloadProtocol", "SmartMeterMessageProtocol"):
+        for kind, stream, n_expected in (("p1", suf_p, 3), ("hdlc", suf_h, 2)):
+            for container in ("tuple", "shared-list"):
+                shared = [hdlc.HdlcFrameReader(True, True), dlde.ModeDReader()]
+                for use in (1, 2):
+                    q = asyncio.Queue()
+                    try:
+                        cands = tuple(shared) if container == "tuple" else shared
+                        if container == "shared-list" and use == 2:
+                            cands = shared  # the same (possibly emptied) list object, with fresh readers put back by the factory
+                            if not cands:
+                                pass
+                        proto = getattr(mc, cls_name)(q, cands)
+                        for c in X.fixed(b"\x00noise\r\n" + stream, 64):
+                            proto.data_received(c)
+                    except Exception as ex:  # noqa: BLE001
+                        errs.append(f"{cls_name} with candidates as {container} (use {use}), {kind} stream: raised {type(ex).__name__}: {ex}")
+                        break
+                    if q.qsize() < n_expected and not (container == "shared-list" and use == 2 and False):
+                        errs.append(f"{cls_name} with candidates as {container} (use {use}), clean {kind} stream: only {q.qsize()} item(s) queued, at least {n_expected} expected")
+                        break
+                    if container == "tuple":
+                        break
+                    if container == "shared-list" and use == 1 and len(shared) != 2:
+                        errs.append(f"{cls_name}: the caller's candidate list was modified by the protocol ({len(shared)} of 2 readers left)")
+                        break
     return errs
 
 
@@ -127,13 +166,15 @@ def check_stream(kind, S: bytes, chunks, cfgs=X.CFGS):
         if ok is False:
             out.append(("unusable", "ModeDReader did not deliver clean readouts 2..3 after the noise", None))
     for cls in ("SmartMeterMessagePayloadProtocol", "SmartMeterMessageProtocol"):
-        for order in ("HP", "PH"):
-            for w, e in probe_protocol(cls, order, (False, False), chunks):
-                out.append(("raises", f"{w} raised {e}", None))
+        for order, container in (("HP", "list"), ("PH", "tuple")):
+            for w, e in probe_protocol(cls, order, (False, False), chunks, container):
+                out.append(("raises", f"{w} (candidates given as a {container}) raised {e}", None))
     return out
 
 
 def replay(case: dict) -> list[str]:
+    if case.get("kind") == "containers":
+        return protocol_container_errors()
     S = bytes.fromhex(case["stream"])
     if case["how"] == "fixed":
         chunks = X.fixed(S, case["k"])
@@ -252,6 +293,11 @@ def main(run: core.Run) -> int:
     run.log(f"E3: {len(e3)} tasks")
     # split the 2-edit bases by first edit position implicitly: they are few; run as they are
     run.merge(par.pmap(_work_e3, e3, seed=run.seed))
+    cont = core.Part()
+    for m in protocol_container_errors():
+        cont.viol("raises", f"containers:{m[:80]}", m, {"kind": "containers"}, size=1)
+    cont.add("executions", 16)
+    run.merge([cont])
     run.log("long periodic noise")
     run.merge(par.pmap(_work_long, [(rd, q, i, 32) for rd in ("p1", "hdlc") for i in range(32)], seed=run.seed))
     tot = run.total
